@@ -15,6 +15,7 @@ import CapyV.Driver.C05
 import CapyV.Driver.C08
 import CapyV.Driver.C14
 import CapyV.Driver.C09
+import CapyV.Driver.C02
 open CapyV.Driver
 
 def dispatch (line : String) : String :=
@@ -37,6 +38,7 @@ def dispatch (line : String) : String :=
   | "C08" :: args => c08 args
   | "C14" :: args => c14 args
   | "C09" :: args => c09 args
+  | "C02" :: args => c02 args
   | _ => "bad-op"
 
 partial def loop (h : IO.FS.Stream) (out : IO.FS.Stream) : IO Unit := do
